@@ -104,6 +104,28 @@ example : goInt (str "0x10") = some 16 ∧ goInt (str "007") = some 7 ∧ goInt 
     goInt (str "0") = some 0 ∧ goInt (str "00") = some 0 ∧ goInt (str "18446744073709551616") = some 18446744073709551616 ∧
     goInt (str "089") = none ∧ goInt (str "0x") = none := by decide
 
+/-- the other literal forms `big.Int.SetString(lit, 0)` understands — binary and `0o` octal
+    prefixes, upper-case prefix letters, `_` separators — are modelled too (the leaf
+    contract is checked on them on every run) ... -/
+example : goInt (str "0b101") = some 5 ∧ goInt (str "0B1") = some 1 ∧ goInt (str "0o17") = some 15 ∧
+    goInt (str "0X1f") = some 31 ∧ goInt (str "1_000") = some 1000 ∧ goInt (str "0x_1") = some 1 ∧
+    goInt (str "0_7") = some 7 ∧ goInt (str "0b2") = none ∧ goInt (str "1__0") = none ∧ goInt (str "_1") = none ∧
+    goInt (str "1_") = none ∧ goInt (str "0_") = none ∧ goInt (str "12a") = none := by decide
+
+/-- ... but `LexNumber` never makes such a token: an integer token is decimal digits or
+    `0x` + hex digits, so `0b1`, `0o7`, `0X1`, `1_000`, `0x_1` are an integer token
+    followed by an identifier, and `Unmarshal` reports the trailing token -/
+theorem int_token_forms :
+    lexNumber fixedCfg.expSigns (str "0b1") = (⟨.int, str "0"⟩, str "b1") ∧
+    lexNumber fixedCfg.expSigns (str "0o7") = (⟨.int, str "0"⟩, str "o7") ∧
+    lexNumber fixedCfg.expSigns (str "0X1") = (⟨.int, str "0"⟩, str "X1") ∧
+    lexNumber fixedCfg.expSigns (str "1_000") = (⟨.int, str "1"⟩, str "_000") ∧
+    lexNumber fixedCfg.expSigns (str "0x_1") = (⟨.int, str "0x"⟩, str "_1") ∧
+    toJSON fixedCfg demoLeaf (str "0b1") = .ok (str "0") ∧
+    unmarshal fixedCfg demoLeaf (str "0b1") = .err "more" ∧
+    unmarshal fixedCfg demoLeaf (str "1_000") = .err "more" ∧
+    toJSON fixedCfg demoLeaf (str "0x_1") = .err "" := by decide
+
 /-! ### plain JSON keeps its standard meaning -/
 
 mutual
